@@ -16,6 +16,14 @@ BAD = ["FROM method_declaration md SELECT", "FROM method_declaration AS md WHERE
        "FROM method_declaration AS md SELECT md extra tokens"]
 
 
+def rename_calls(c, old, new):
+    if c[0] == "call":
+        return ("call", new if c[1] == old else c[1], c[2])
+    if c[0] == "atom":
+        return c
+    return (c[0],) + tuple(rename_calls(k, old, new) for k in c[1:])
+
+
 def run(run):
     C.build_driver()
     h, d = C.Harness(), C.Driver()
@@ -31,6 +39,10 @@ def run(run):
             rdir = os.path.join(tmp, "rules%d" % case)
             nrules = rng.randint(1, 8)
             rules = []      # (relative path, text, meta, query or None if malformed)
+            heads = []
+            # helper predicates whose name and parameter kind several rules of the ruleset share (each with a body of
+            # its own), and rules that call such a helper without declaring it
+            shared = (rng.choice(kinds), rng.choice(["isTarget", "helper", "p"])) if case % 2 == 1 or rng.random() < 0.5 else None
             for i in range(nrules):
                 sub = os.path.join(*[rng.choice(["a", "b", "c"]) for _ in range(rng.randint(1, 2))]) if rng.random() < 0.5 else ""
                 rel = os.path.join(sub, "r%02d_%s.cql" % (i, rng.choice(["x", "y", "z"])))
@@ -45,8 +57,24 @@ def run(run):
                     text = "\n".join(hl + [rng.choice(BAD)]) + "\n"
                     rules.append((rel, text, meta, None))
                 else:
-                    q = QG.random_query(rng, kinds=kinds, values=proj.values, depth=1, n_preds=rng.choice([0, 0, 1]), n_entities=1)
-                    text, meta = GR.rule_file(rng, q)
+                    if shared and rng.random() < 0.6:
+                        q = QG.random_query(rng, kinds=[shared[0]], values=proj.values, depth=1, n_preds=1, n_entities=1)
+                        old = q.preds[0].name
+                        q.preds[0].name = shared[1]
+                        call = ("call", shared[1], (q.from_items[0][1],))
+                        rest = rename_calls(q.cond, old, shared[1]) if q.cond is not None else None
+                        q.cond = rng.choice([call, QG.mk("not", call)] + ([QG.mk("and", call, rest), QG.mk("or", rest, call)] if rest is not None else []))
+                        if rng.random() < 0.35:
+                            q.preds = []            # the helper is used but not declared in this file
+                        QG.flatten(q)
+                        stats["shared_helper_rules"] += 1
+                    else:
+                        q = QG.random_query(rng, kinds=kinds, values=proj.values, depth=1, n_preds=rng.choice([0, 0, 1]), n_entities=1)
+                    # now and then the header of an earlier rule of the ruleset, copied as it is (only the query differs)
+                    r = GR.rule_file(rng, q, head=rng.choice(heads) if heads and rng.random() < 0.35 else None)
+                    text, meta = r
+                    heads.append(r.head)
+                    stats["copied_header_rules"] += int(len(heads) > 1 and r.head[0] in [h_[0] for h_ in heads[:-1]])
                     rules.append((rel, text, meta, q))
                 p = os.path.join(rdir, rel)
                 os.makedirs(os.path.dirname(p), exist_ok=True)
